@@ -98,7 +98,9 @@ class Prop:
     pid = 'C11'
     props_file = 'Props/C11.v'
     required_theorems = ['deferring_implies_pending', 'pending_refines_spec', 'family_released_exactly_once',
-                         'release_only_when_unblocked_or_timer', 'non_gr_peer_never_blocks']
+                         'release_only_when_unblocked_or_timer', 'non_gr_peer_never_blocks',
+                         'held_prefixes_announced_once_partial', 'end_deferral_emits_held_once',
+                         'insert_while_deferring_is_held']
     correspondence_name = ('Model/Deferral.v rd_new/rd_step vs daemon/src/gr.rs RestartingDeferral::{new,process} '
                            '(harness/daemon/gr_hx.rs)')
     rule = ('cases = (configured GR families per peer, timer duration, input sequence); a case is non-trivial when the '
